@@ -59,7 +59,7 @@ def plan(tier, seed):
                 if ne == 2 and (nr != 1 or (ti > 2 and tier == 'quick')):
                     continue
                 tasks.append(('roundtrip', {'files': [{'t': ti, 'entries': [nr] * ne}], 'big': False}))
-    tasks.append(('roundtrip', {'files': [{'t': 0, 'entries': [2]}], 'big': True}))
+    tasks.append(('roundtrip', {'files': [{'t': 0, 'entries': [1 if tier == 'quick' else 2]}], 'big': True}))
     tasks.append(('roundtrip', {'files': [{'t': 0, 'entries': [1]}, {'t': 0, 'entries': [1]}], 'big': False}))
     tasks.append(('roundtrip', {'files': [{'t': 1, 'entries': [1]}, {'t': 3, 'entries': [1]}], 'big': False}))
     if tier != 'quick':
